@@ -1,0 +1,9 @@
+//go:build verif
+
+package store
+
+// Contracts for the verifier in /verif (comment-only; see /verif/DESIGN.md §3).
+
+//@ func NewStore(storeURL string) (store Store, err error)
+//@   trusted
+//@   nopanic
